@@ -342,4 +342,46 @@ def Stream.run (cd : Codec) : Stream → List Frame → List (Dir × Ev)
     let r := Stream.data cd s d b es
     r.2.map (fun e => (d, e)) ++ (match r.1 with | some s' => Stream.run cd s' fs | none => [])
 
+/-! ### Several streams through one `AsStreamProcessorFactory` value
+
+`h2.Config` holds one factory value and calls it once per HTTP/2 stream (`h2.go`); every call
+builds its own `enabled` flag, its own two adapters and emitters. The model: a table from stream id
+to that stream's state; `none` = an adapter of the stream returned an error. -/
+
+/-- one frame on one stream: the new state (`none` after an error) and what its processors and
+sinks see -/
+def Stream.step (cd : Codec) (s : Stream) : Frame → Option Stream × List (Dir × Ev)
+  | .headers d hs es =>
+    let r := s.header d hs es
+    (if r.2.any (fun e => match e with | .error _ => true | _ => false) then none else some r.1,
+     r.2.map (fun e => (d, e)))
+  | .data d b es =>
+    let r := Stream.data cd s d b es
+    (r.1, r.2.map (fun e => (d, e)))
+
+/-- `Stream.run` written with `step` (and a possibly dead start state) -/
+def Stream.runO (cd : Codec) : Option Stream → List Frame → List (Dir × Ev)
+  | none, _ => []
+  | some _, [] => []
+  | some s, f :: fs => (Stream.step cd s f).2 ++ Stream.runO cd (Stream.step cd s f).1 fs
+
+/-- stream id ↦ state; an id not in the table is a stream the factory has not been called for yet -/
+abbrev Multi := List (Nat × Option Stream)
+
+def Multi.get (m : Multi) (sid : Nat) : Option Stream :=
+  match m.lookup sid with
+  | some s => s
+  | none => some {}
+
+def Multi.set (m : Multi) (sid : Nat) (s : Option Stream) : Multi := (sid, s) :: m
+
+/-- frames of several streams, in the order they arrive, through one factory value -/
+def Multi.run (cd : Codec) : Multi → List (Nat × Frame) → List (Nat × Dir × Ev)
+  | _, [] => []
+  | m, (sid, f) :: fs =>
+    match m.get sid with
+    | none => Multi.run cd m fs
+    | some s =>
+      (Stream.step cd s f).2.map (fun e => (sid, e)) ++ Multi.run cd (m.set sid (Stream.step cd s f).1) fs
+
 end Martian.Grpc
